@@ -4,6 +4,7 @@
 mod common;
 mod c17;
 mod c10;
+mod c11;
 mod c07;
 mod c20;
 mod c12;
@@ -48,6 +49,7 @@ fn main() {
     match prop.as_str() {
         "c17" => c17::run(&mut out, tier, seed, replay),
         "c10" => c10::run(&mut out, tier, seed, replay),
+        "c11" => c11::run(&mut out, tier, seed, replay),
         "c07" => c07::run(&mut out, tier, seed, replay),
         "c20" => c20::run(&mut out, tier, seed, replay),
         "c12" => c12::run(&mut out, tier, seed, replay),
